@@ -8,8 +8,12 @@
    ([et_roundtrip]).  [saved_svg2paths]: in a file saved by Document,
    svg2paths finds exactly the path elements WITHOUT namespace (the added
    ones), and none of the elements of the SVG namespace (written svg:path).
-   [history_visible_fixed]: with the element created in the SVG namespace
-   the added path is visible (repair). *)
+   All of this for the pinned variant (Model/SvgIO.v cfg, flags false).
+   Repaired variants: [history_visible_at], [history_visible_named] (f_add_ns:
+   every path added to a group that paths() reaches, or through nested group
+   names, is returned by paths() after every continuation of the history);
+   [et_roundtrip_pure], [saved_svg2paths_default] (f_default_ns: svg2paths
+   finds every path element of a saved document). *)
 From Coq Require Import String List Bool Ascii Lia PeanoNat.
 From SVP Require Import Model.SvgIO.
 Import ListNotations.
@@ -32,13 +36,43 @@ Section XelInd.
 End XelInd.
 
 (* ---- save / reload is the identity on ElementTree trees ---- *)
-Theorem et_roundtrip : forall e, et_parse (et_write e) = e.
+Fixpoint pure (e : xel) : bool :=
+  match e with XE ns _ _ kids => String.eqb ns SVGNS && forallb pure kids end.
+
+Lemma parse_write_in c dflt : forall e,
+    dflt = false \/ pure e = true -> et_parse (et_write_in c dflt e) = e.
 Proof.
-  induction e as [ns l a kids IH] using xel_ind'.
-  cbn [et_write et_parse]. f_equal. rewrite map_map.
-  induction kids as [|c r IHr]; [reflexivity|].
-  inversion IH; subst. cbn [map]. f_equal; auto.
+  induction e as [ns l a kids IH] using xel_ind'. intros H.
+  cbn [et_write_in].
+  assert (Hk : map et_parse (map (et_write_in c dflt) kids) = kids).
+  { rewrite map_map.
+    assert (Hp : dflt = false \/ forallb pure kids = true).
+    { destruct H as [H|H]; [left; exact H|right].
+      cbn [pure] in H. apply andb_true_iff in H. apply H. }
+    clear H. induction kids as [|ch r IHr]; [reflexivity|].
+    inversion IH as [|? ? Hch Hr]; subst. cbn [map]. f_equal.
+    - apply Hch. destruct Hp as [Hp|Hp]; [left; exact Hp|right].
+      cbn [forallb] in Hp. apply andb_true_iff in Hp. apply Hp.
+    - apply IHr; [exact Hr|]. destruct Hp as [Hp|Hp]; [left; exact Hp|right].
+      cbn [forallb] in Hp. apply andb_true_iff in Hp. apply Hp. }
+  destruct (String.eqb ns SVGNS) eqn:E1.
+  - apply String.eqb_eq in E1. subst ns. cbn [et_parse]. rewrite Hk. reflexivity.
+  - destruct (String.eqb ns "") eqn:E2.
+    + apply String.eqb_eq in E2. subst ns. cbn [et_parse]. rewrite Hk.
+      destruct H as [->|H]; [reflexivity|].
+      cbn [pure] in H. rewrite E1 in H. discriminate.
+    + cbn [et_parse]. rewrite Hk. reflexivity.
 Qed.
+
+(* pinned serialisation (svg: prefix): identity on every tree *)
+Theorem et_roundtrip c : f_default_ns c = false -> forall e, et_parse (et_write c e) = e.
+Proof.
+  intros Hc e. unfold et_write. rewrite Hc. cbn [andb]. apply parse_write_in. left; reflexivity.
+Qed.
+(* default-namespace serialisation: identity on trees that are entirely in the
+   SVG namespace (what the repaired Document builds from such files) *)
+Theorem et_roundtrip_pure c : forall e, pure e = true -> et_parse (et_write c e) = e.
+Proof. intros e H. unfold et_write. apply parse_write_in. right; exact H. Qed.
 
 (* ---- what Document.paths() sees ---- *)
 Fixpoint go_vis (l : list xel) : list dict :=
@@ -99,8 +133,8 @@ Proof.
   cbn [filter go_vis]. rewrite Hp, Hg. cbn [app]. rewrite app_nil_r. reflexivity.
 Qed.
 
-Lemma invisible_new_path d a : invisible (new_path_element d a).
-Proof. split; reflexivity. Qed.
+Lemma invisible_new_path c d a : f_add_ns c = false -> invisible (new_path_element c d a).
+Proof. intros H. unfold new_path_element, created_ns. rewrite H. split; reflexivity. Qed.
 Lemma invisible_new_group a : invisible (new_group_element a []).
 Proof. split; reflexivity. Qed.
 Lemma invisible_chain names leaf : invisible leaf -> invisible (chain names leaf).
@@ -147,54 +181,291 @@ Proof.
       apply invisible_chain, Hl.
 Qed.
 
-Lemma step_face o root : same_face (step o root) root.
+Lemma step_face c o root : f_add_ns c = false -> same_face (step c o root) root.
 Proof.
-  destruct o as [d a p|d a names|a p]; cbn [step].
-  - apply update_at_face. intros e. apply append_invisible, invisible_new_path.
-  - apply add_named_face, invisible_new_path.
+  intros Hc. destruct o as [d a p|d a names|a p]; cbn [step].
+  - apply update_at_face. intros e. apply append_invisible, invisible_new_path, Hc.
+  - apply add_named_face, invisible_new_path, Hc.
   - apply update_at_face. intros e. apply append_invisible, invisible_new_group.
 Qed.
 
-Theorem history_invisible : forall ops root, doc_visible (run ops root) = doc_visible root.
+Theorem history_invisible c : f_add_ns c = false ->
+  forall ops root, doc_visible (run c ops root) = doc_visible root.
 Proof.
-  unfold run. induction ops as [|o ops IH]; intros root; [reflexivity|].
-  cbn [fold_left]. rewrite IH. apply step_face.
+  intros Hc. unfold run. induction ops as [|o ops IH]; intros root; [reflexivity|].
+  cbn [fold_left]. rewrite IH. apply step_face, Hc.
 Qed.
 
 (* ... and after save + reload *)
-Corollary history_invisible_reload ops root :
-  doc_visible (et_parse (et_write (run ops root))) = doc_visible root.
-Proof. rewrite et_roundtrip. apply history_invisible. Qed.
+Corollary history_invisible_reload c ops root :
+  f_add_ns c = false -> f_default_ns c = false ->
+  doc_visible (et_parse (et_write c (run c ops root))) = doc_visible root.
+Proof. intros H1 H2. rewrite (et_roundtrip c H2). apply history_invisible, H1. Qed.
 
-(* ---- repair: created in the SVG namespace, a path added to the root is seen ---- *)
-Theorem history_visible_fixed d a root :
-  In (update a [("d", d)]) (doc_visible (append_child (new_path_element_fixed d a) root)).
+(* ------------------------------------------------------------------ *)
+(* repaired add_path (f_add_ns): what is added is seen, and stays seen   *)
+
+(* paths() sees at least as much in e' as in e *)
+Definition vis_le (e e' : xel) : Prop :=
+  x_ns e = x_ns e' /\ x_local e = x_local e' /\ x_attrs e = x_attrs e'
+  /\ incl (doc_visible e) (doc_visible e').
+
+Lemma vis_le_refl e : vis_le e e.
+Proof. repeat split. apply incl_refl. Qed.
+Lemma vis_le_trans a b c : vis_le a b -> vis_le b c -> vis_le a c.
 Proof.
-  destruct root as [ns l at0 kids]. cbn [append_child]. rewrite doc_visible_unfold.
-  apply in_or_app. left. rewrite filter_app, map_app. apply in_or_app. right.
-  cbn. left. reflexivity.
+  intros (A1 & A2 & A3 & A4) (B1 & B2 & B3 & B4). repeat split; try congruence.
+  eapply incl_tran; eauto.
+Qed.
+
+Lemma kids_le kids kids' :
+  Forall2 vis_le kids kids' ->
+  map x_attrs (filter is_svg_path kids) = map x_attrs (filter is_svg_path kids')
+  /\ incl (go_vis kids) (go_vis kids').
+Proof.
+  intros HF. induction HF as [|c c' r r' (Hn & Hl & Ha & Hv) HF IH].
+  - split; [reflexivity|apply incl_refl].
+  - cbn [filter go_vis].
+    assert (Ep : is_svg_path c = is_svg_path c') by (unfold is_svg_path, is_tag; rewrite Hn, Hl; reflexivity).
+    assert (Eg : is_svg_g c = is_svg_g c') by (unfold is_svg_g, is_tag; rewrite Hn, Hl; reflexivity).
+    destruct IH as [I1 I2]. rewrite <- Ep, <- Eg. split.
+    + destruct (is_svg_path c); cbn [map]; rewrite ?Ha, I1; reflexivity.
+    + apply incl_app; [apply incl_appl; exact I2|apply incl_appr].
+      destruct (is_svg_g c); [exact Hv|apply incl_refl].
+Qed.
+
+Lemma vis_le_kids ns l a kids kids' :
+  Forall2 vis_le kids kids' -> vis_le (XE ns l a kids) (XE ns l a kids').
+Proof.
+  intros HF. repeat split. rewrite !doc_visible_unfold.
+  destruct (kids_le kids kids' HF) as [I1 I2]. rewrite I1.
+  apply incl_app; [apply incl_appl, incl_refl|apply incl_appr, I2].
+Qed.
+
+Lemma append_le c e : vis_le e (append_child c e).
+Proof.
+  destruct e as [ns l a kids]. cbn [append_child]. repeat split.
+  rewrite !doc_visible_unfold, filter_app, map_app, go_vis_app.
+  apply incl_app.
+  - apply incl_appl, incl_appl, incl_refl.
+  - apply incl_appr, incl_appr, incl_refl.
+Qed.
+
+Fixpoint upd_kids (i : nat) (g : xel -> xel) (j : nat) (ks : list xel) : list xel :=
+  match ks with
+  | [] => []
+  | c :: cr => (if Nat.eqb j i then g c else c) :: upd_kids i g (S j) cr
+  end.
+Lemma update_at_cons i r f ns l a kids :
+  update_at (i :: r) f (XE ns l a kids) = XE ns l a (upd_kids i (update_at r f) O kids).
+Proof.
+  cbn [update_at]. f_equal. generalize O.
+  induction kids as [|c cr IH]; intros j; [reflexivity|].
+  cbn [upd_kids]. rewrite <- IH. reflexivity.
+Qed.
+
+Lemma update_at_le p f : (forall e, vis_le e (f e)) -> forall e, vis_le e (update_at p f e).
+Proof.
+  intros Hf. induction p as [|i r IH]; intros e; [apply Hf|].
+  destruct e as [ns l a kids]. rewrite update_at_cons.
+  apply vis_le_kids. generalize O.
+  induction kids as [|c cr IHk]; intros j; constructor.
+  - destruct (Nat.eqb j i); [apply IH|apply vis_le_refl].
+  - apply IHk.
+Qed.
+
+Lemma Forall2_le_refl l : Forall2 vis_le l l.
+Proof. induction l; constructor; auto using vis_le_refl. Qed.
+
+Lemma add_named_le leaf : forall names e, vis_le e (add_named names leaf e).
+Proof.
+  intros names. induction names as [|nm rest IH]; intros e.
+  - cbn [add_named]. apply append_le.
+  - destruct e as [ns l a kids]. cbn [add_named].
+    destruct (existsb (names_match nm) kids).
+    + apply vis_le_kids.
+      induction kids as [|c cr IHk]; [constructor|].
+      destruct (names_match nm c).
+      * constructor; [apply IH|apply Forall2_le_refl].
+      * constructor; [apply vis_le_refl|exact IHk].
+    + apply (append_le (chain (nm :: rest) leaf) (XE ns l a kids)).
+Qed.
+
+Lemma step_le c o root : vis_le root (step c o root).
+Proof.
+  destruct o as [d a p|d a names|a p]; cbn [step].
+  - apply update_at_le. intros e. apply append_le.
+  - apply add_named_le.
+  - apply update_at_le. intros e. apply append_le.
+Qed.
+
+(* nothing that paths() returns is ever lost by a continuation of the history *)
+Theorem history_monotone c : forall ops root, incl (doc_visible root) (doc_visible (run c ops root)).
+Proof.
+  unfold run. induction ops as [|o ops IH]; intros root; [apply incl_refl|].
+  cbn [fold_left]. eapply incl_tran; [|apply IH]. apply step_le.
+Qed.
+
+(* the positions paths() reaches: through (SVGNS, g) children only *)
+Fixpoint reach (e : xel) (p : position) : bool :=
+  match p with
+  | [] => true
+  | i :: r => match nth_error (x_kids e) i with
+              | Some ch => is_svg_g ch && reach ch r
+              | None => false
+              end
+  end.
+
+Lemma append_visible c e : is_svg_path c = true -> In (x_attrs c) (doc_visible (append_child c e)).
+Proof.
+  intros Hp. destruct e as [ns l a kids]. cbn [append_child].
+  rewrite doc_visible_unfold, filter_app, map_app. apply in_or_app. left. apply in_or_app. right.
+  cbn [filter]. rewrite Hp. left. reflexivity.
+Qed.
+
+Lemma go_vis_in kids ch v :
+  In ch kids -> is_svg_g ch = true -> In v (doc_visible ch) -> In v (go_vis kids).
+Proof.
+  induction kids as [|c r IH]; intros Hin Hg Hv; [contradiction|].
+  cbn [go_vis]. apply in_or_app. destruct Hin as [->|Hin].
+  - right. rewrite Hg. exact Hv.
+  - left. apply IH; assumption.
+Qed.
+
+Lemma upd_kids_in i g : forall kids j k ch,
+    nth_error kids k = Some ch -> (j + k)%nat = i -> In (g ch) (upd_kids i g j kids).
+Proof.
+  induction kids as [|c cr IH]; intros j k ch Hn Hjk; [destruct k; discriminate|].
+  cbn [upd_kids]. destruct k as [|k'].
+  - cbn in Hn. inversion Hn; subst c. replace (Nat.eqb j i) with true; [left; reflexivity|].
+    symmetry. apply Nat.eqb_eq. lia.
+  - right. apply (IH (S j) k' ch Hn). lia.
+Qed.
+
+Lemma update_at_visible v f : (forall e, vis_le e (f e)) -> (forall e, In v (doc_visible (f e))) ->
+  forall p e, reach e p = true -> In v (doc_visible (update_at p f e)).
+Proof.
+  intros Hle Hf. induction p as [|i r IH]; intros e Hr; [apply Hf|].
+  destruct e as [ns l a kids]. rewrite update_at_cons. cbn [reach x_kids] in Hr.
+  destruct (nth_error kids i) as [ch|] eqn:En; [|discriminate].
+  apply andb_true_iff in Hr. destruct Hr as [Hg Hr].
+  rewrite doc_visible_unfold. apply in_or_app. right.
+  apply (go_vis_in _ (update_at r f ch)).
+  - apply (upd_kids_in i (update_at r f) kids O i ch En). reflexivity.
+  - destruct (update_at_le r f Hle ch) as (Hn & Hl & _). unfold is_svg_g, is_tag in *.
+    rewrite <- Hn, <- Hl. exact Hg.
+  - apply IH, Hr.
+Qed.
+
+Lemma chain_visible names leaf :
+  is_svg_path leaf = true -> names <> [] ->
+  is_svg_g (chain names leaf) = true /\ In (x_attrs leaf) (doc_visible (chain names leaf)).
+Proof.
+  intros Hp. induction names as [|nm r IH]; intros Hne; [contradiction|].
+  split; [reflexivity|].
+  cbn [chain]. unfold new_group_element. rewrite doc_visible_unfold. cbn [filter go_vis map].
+  destruct r as [|nm' r'].
+  - cbn [chain]. rewrite Hp. cbn [map app]. left. reflexivity.
+  - destruct (IH ltac:(discriminate)) as [Hg Hv].
+    apply in_or_app. right. cbn [app]. rewrite Hg. exact Hv.
+Qed.
+
+Lemma add_named_visible leaf : is_svg_path leaf = true ->
+  forall names e, In (x_attrs leaf) (doc_visible (add_named names leaf e)).
+Proof.
+  intros Hp names. induction names as [|nm rest IH]; intros e.
+  - cbn [add_named]. apply append_visible, Hp.
+  - destruct e as [ns l a kids]. cbn [add_named].
+    destruct (existsb (names_match nm) kids) eqn:Ex.
+    + rewrite doc_visible_unfold. apply in_or_app. right.
+      induction kids as [|c cr IHk]; [discriminate|].
+      cbn [existsb] in Ex. destruct (names_match nm c) eqn:Em.
+      * cbn [go_vis]. apply in_or_app. right.
+        assert (Hg : is_svg_g (add_named rest leaf c) = true).
+        { destruct (add_named_le leaf rest c) as (Hn & Hl & _).
+          unfold names_match in Em. apply andb_true_iff in Em. destruct Em as [Em _].
+          unfold is_svg_g, is_tag in *. rewrite <- Hn, <- Hl. exact Em. }
+        rewrite Hg. apply IH.
+      * cbn [go_vis]. apply in_or_app. left. apply IHk. exact Ex.
+    + change (In (x_attrs leaf) (doc_visible (append_child (chain (nm :: rest) leaf) (XE ns l a kids)))).
+      destruct (chain_visible (nm :: rest) leaf Hp ltac:(discriminate)) as [Hg Hv].
+      cbn [append_child]. rewrite doc_visible_unfold, go_vis_app. apply in_or_app. right.
+      apply in_or_app. left. cbn [go_vis app]. rewrite Hg. exact Hv.
+Qed.
+
+Lemma new_path_is_svg c d a : f_add_ns c = true -> is_svg_path (new_path_element c d a) = true.
+Proof. intros H. unfold new_path_element, created_ns. rewrite H. reflexivity. Qed.
+
+Lemma run_app c o1 o2 root : run c (o1 ++ o2) root = run c o2 (run c o1 root).
+Proof. unfold run. apply fold_left_app. Qed.
+
+(* every path added to an element that paths() reaches (the root, or a group
+   below it through groups) is returned by paths() after the step and after
+   every continuation of the history *)
+Theorem history_visible_at c : f_add_ns c = true ->
+  forall ops1 ops2 root d a p,
+    reach (run c ops1 root) p = true ->
+    In (update a [("d", d)]) (doc_visible (run c (ops1 ++ OpAddPath d a p :: ops2) root)).
+Proof.
+  intros Hc ops1 ops2 root d a p Hr.
+  rewrite run_app. change (OpAddPath d a p :: ops2) with ([OpAddPath d a p] ++ ops2).
+  rewrite run_app. apply (history_monotone c ops2).
+  cbn [run fold_left step].
+  apply (update_at_visible (update a [("d", d)]) (append_child (new_path_element c d a))).
+  - intros e. apply append_le.
+  - intros e. apply (append_visible (new_path_element c d a) e), new_path_is_svg, Hc.
+  - exact Hr.
+Qed.
+
+(* ... and every path added through nested group names (get_or_add_group) *)
+Theorem history_visible_named c : f_add_ns c = true ->
+  forall ops1 ops2 root d a names,
+    In (update a [("d", d)]) (doc_visible (run c (ops1 ++ OpAddPathNamed d a names :: ops2) root)).
+Proof.
+  intros Hc ops1 ops2 root d a names.
+  rewrite run_app. change (OpAddPathNamed d a names :: ops2) with ([OpAddPathNamed d a names] ++ ops2).
+  rewrite run_app. apply (history_monotone c ops2).
+  cbn [run fold_left step].
+  apply (add_named_visible (new_path_element c d a) (new_path_is_svg c d a Hc)).
 Qed.
 
 (* ---- svg2paths on a file saved by Document ---- *)
 Fixpoint x_preorder (e : xel) : list xel :=
   match e with XE _ _ _ kids => e :: flat_map x_preorder kids end.
 
-Lemma f_preorder_write : forall e, f_preorder (et_write e) = map et_write (x_preorder e).
+Lemma f_preorder_write c dflt : forall e,
+    f_preorder (et_write_in c dflt e) = map (et_write_in c dflt) (x_preorder e).
 Proof.
   induction e as [ns l a kids IH] using xel_ind'.
-  cbn [et_write f_preorder x_preorder map]. f_equal.
-  induction kids as [|c r IHr]; [reflexivity|].
-  inversion IH; subst. cbn [map flat_map]. rewrite map_app. f_equal; auto.
+  assert (Hk : flat_map f_preorder (map (et_write_in c dflt) kids)
+               = map (et_write_in c dflt) (flat_map x_preorder kids)).
+  { induction kids as [|ch r IHr]; [reflexivity|].
+    inversion IH; subst. cbn [map flat_map]. rewrite map_app. f_equal; auto. }
+  cbn [et_write_in x_preorder map].
+  destruct (String.eqb ns SVGNS); [|destruct (String.eqb ns "")];
+    cbn [f_preorder]; rewrite Hk; reflexivity.
 Qed.
 
 Definition bare_path (e : xel) : bool := String.eqb (x_ns e) "" && String.eqb (x_local e) "path".
 
-Lemma tag_name_write e : String.eqb (tag_name (et_write e)) "path" = bare_path e.
+Lemma tag_name_write c dflt e :
+  f_default_ns c = false ->
+  String.eqb (tag_name (et_write_in c dflt e)) "path" = bare_path e.
 Proof.
-  destruct e as [ns l a kids]. unfold bare_path. cbn [et_write tag_name x_ns x_local].
+  intros Hc. destruct e as [ns l a kids]. unfold bare_path. cbn [et_write_in x_ns x_local].
   destruct (String.eqb ns SVGNS) eqn:E1.
-  - apply String.eqb_eq in E1. subst ns. reflexivity.
+  - apply String.eqb_eq in E1. subst ns. rewrite Hc. reflexivity.
   - destruct (String.eqb ns "") eqn:E2; reflexivity.
+Qed.
+
+(* default-namespace serialisation of a tree in the SVG namespace: every
+   element is written bare *)
+Lemma tag_name_write_default c dflt e :
+  f_default_ns c = true -> String.eqb (x_ns e) SVGNS = true ->
+  String.eqb (tag_name (et_write_in c dflt e)) "path" = String.eqb (x_local e) "path".
+Proof.
+  intros Hc Hn. destruct e as [ns l a kids]. cbn [x_ns x_local] in *. cbn [et_write_in].
+  rewrite Hn, Hc. reflexivity.
 Qed.
 
 Lemma filter_map_comm {A B} (f : A -> B) (p : B -> bool) (q : A -> bool) l :
@@ -204,9 +475,44 @@ Proof.
   cbn [map filter]. rewrite H. destruct (q x); cbn [map]; rewrite IH; reflexivity.
 Qed.
 
-Theorem saved_svg2paths e :
-  elements_by_tag "path" (et_write e) = map et_write (filter bare_path (x_preorder e)).
+Theorem saved_svg2paths c e :
+  f_default_ns c = false ->
+  elements_by_tag "path" (et_write c e)
+  = map (et_write_in c false) (filter bare_path (x_preorder e)).
 Proof.
-  unfold elements_by_tag. rewrite f_preorder_write.
-  apply filter_map_comm. apply tag_name_write.
+  intros Hc. unfold elements_by_tag, et_write. rewrite Hc. cbn [andb]. rewrite f_preorder_write.
+  apply filter_map_comm. intros x. apply tag_name_write, Hc.
+Qed.
+
+Lemma filter_map_comm_in {A B} (f : A -> B) (p : B -> bool) (q : A -> bool) l :
+  (forall x, In x l -> p (f x) = q x) -> filter p (map f l) = map f (filter q l).
+Proof.
+  induction l as [|x r IH]; intros H; [reflexivity|].
+  cbn [map filter]. rewrite (H x (or_introl eq_refl)).
+  rewrite IH by (intros y Hy; apply H; right; exact Hy).
+  destruct (q x); reflexivity.
+Qed.
+
+Lemma pure_preorder : forall e, pure e = true ->
+  forall x, In x (x_preorder e) -> String.eqb (x_ns x) SVGNS = true.
+Proof.
+  induction e as [ns l a kids IH] using xel_ind'. intros Hp x Hin.
+  cbn [pure] in Hp. apply andb_true_iff in Hp. destruct Hp as [Hn Hk].
+  cbn [x_preorder] in Hin. destruct Hin as [<-|Hin]; [exact Hn|].
+  apply in_flat_map in Hin. destruct Hin as (ch & Hch & Hx).
+  rewrite Forall_forall in IH. apply (IH ch Hch); [|exact Hx].
+  rewrite forallb_forall in Hk. apply Hk, Hch.
+Qed.
+
+(* repaired: in a saved document that is entirely in the SVG namespace,
+   svg2paths finds every path element, in document order *)
+Theorem saved_svg2paths_default c e :
+  f_default_ns c = true -> pure e = true ->
+  elements_by_tag "path" (et_write c e)
+  = map (et_write_in c (has_svgns e))
+        (filter (fun x => String.eqb (x_local x) "path") (x_preorder e)).
+Proof.
+  intros Hc Hp. unfold elements_by_tag, et_write. rewrite Hc. cbn [andb]. rewrite f_preorder_write.
+  apply filter_map_comm_in. intros x Hx.
+  apply tag_name_write_default; [exact Hc|]. apply (pure_preorder e Hp x Hx).
 Qed.
